@@ -44,6 +44,46 @@ def measure_window(arg):
     return out
 
 
+def measure_cold(arg):
+    """Source locations (file id, line) that thread 0's op executes on its
+    FIRST execution in a process but not on a second one: the code of every
+    lazy initialisation on its path (lexer creation, and whatever else the
+    tree under test creates on first use).  arg = [op, warm]."""
+    import sqlparse
+    op, warm = arg
+    sys.setrecursionlimit(ops.AMPLE)
+    file_ids = {f: i + 1 for i, f in enumerate(pkg_files())}
+    if warm == 'lexer':
+        list(sqlparse.lexer.tokenize('select 1'))
+
+    def once():
+        seen = []
+        seen_set = set()
+
+        def local(frame, event, a):
+            if event == 'line':
+                k = (file_ids.get(frame.f_code.co_filename, 0),
+                     frame.f_lineno)
+                if k not in seen_set:
+                    seen_set.add(k)
+                    seen.append(k)
+            return local
+
+        def glob(frame, event, a):
+            if frame.f_code.co_filename.startswith(PKG) and \
+                    frame.f_code.co_name != '<module>':
+                return local
+            return None
+        s = Sched(1, {'kind': 'seq'}, random.Random(0), PKG, file_ids,
+                  10 ** 9)
+        s.tracers[0] = glob
+        s.run([lambda tid: _exec_thread_op(s, tid, op, [])])
+        return seen, seen_set
+    first, _ = once()
+    _, second = once()
+    return [list(k) for k in first if k not in second]
+
+
 def _measure_one(kind, instr):
     from sqlparse.lexer import Lexer
     file_ids = {f: i + 1 for i, f in enumerate(pkg_files())}
@@ -309,7 +349,8 @@ def gen_threads(rng, ctx, pop, idx):
     # option set (so the same filter classes run concurrently) on texts that
     # drive the stateful layout filters through their nested blocks
     shared_opts = None
-    if pop == 'S' and rng.random() < 0.5:
+    if (pop == 'S' and rng.random() < 0.5) or \
+            (pop == 'I' and rng.random() < 0.3):
         shared_opts = corpus.draw_opts(rng)
         if not shared_opts or rng.random() < 0.5:
             shared_opts = dict(rng.choice(
@@ -360,7 +401,26 @@ def gen_threads(rng, ctx, pop, idx):
     # schedule policy
     sub = (idx // 4)
     pr = rng.random()
-    if pop == 'I' and sub % 3 == 0:
+    warm = False if pop == 'I' else rng.choice([True, 'lexer'])
+    cold = None
+    if rng.random() < 0.25 and not fault_variant:
+        # sweep a single pre-emption over the "cold-only" lines of thread
+        # 0's first op: code that runs on first use only
+        if pop == 'S':
+            warm = 'lexer'
+        op0 = progs[0][0]
+        ck = ('c20_cold', ops.ref_key(
+            op0.get('api', op0['k']), op0.get('inp'), op0.get('opts'),
+            None), str(warm))
+        cold = ctx.memo.get(ck)
+        if cold is None:
+            cold = ctx.memo[ck] = ctx.in_fork('C20', 'measure_cold',
+                                              [op0, warm])
+    if cold:
+        loc = cold[(sub // 4) % len(cold)]
+        policy = {'kind': 'coldline', 'file': loc[0], 'line': loc[1],
+                  'ncold': len(cold)}
+    elif pop == 'I' and sub % 3 == 0:
         # stratified single pre-emption over the initialisation window
         win = ctx.memo.get('c20_window')
         if win is None:
@@ -388,8 +448,10 @@ def gen_threads(rng, ctx, pop, idx):
         policy = {'kind': 'pct', 'prio': prio,
                   'changes': sorted(rng.randint(1, max(2, est))
                                     for _ in range(d - 1))}
+    # warm == 'lexer': only the lexer is warm - every filter, grouping pass
+    # and lazily created object still sees its first use under concurrency
     return {'threads': progs, 'policy': policy, 'instr': instr,
-            'warm': pop == 'S', 'rseed': rng.getrandbits(48),
+            'warm': warm, 'rseed': rng.getrandbits(48),
             'timeout': 300.0}
 
 
@@ -586,7 +648,9 @@ def run_threads(spec, refs):
     sys.setrecursionlimit(ops.AMPLE)
     progs = spec['threads']
     nth = len(progs)
-    if spec.get('warm'):
+    if spec.get('warm') == 'lexer':
+        list(sqlparse.lexer.tokenize('select 1'))
+    elif spec.get('warm'):
         sqlparse.parse('select 1')
         sqlparse.format('select a from b', reindent=True)
     seq = 0
@@ -813,7 +877,8 @@ PROBES = ['probe_descheduled_holding_lexer_lock',
           'probe_two_threads_in_same_filter_class',
           'probe_two_threads_in_grouping', 'probe_interrupt_fired',
           'probe_interrupt_in_lexer_init',
-          'probe_interrupt_while_holding_lexer_lock', 'gen_resumed',
+          'probe_interrupt_while_holding_lexer_lock',
+          'probe_coldline_preemption_fired', 'gen_resumed',
           'gen_closed', 'gen_thrown', 'gen_dropped', 'reconfigured',
           'interrupt_fired', 'interrupt_in_lexer_init',
           'interrupt_in_indent_filter', 'interrupt_in_splitter',
